@@ -12,8 +12,10 @@ of delivered sections that are needed here are re-proved locally instead of impo
   (so `Psi.crcPass` cannot hit its `assert!`), and its preservation.
 * Part B — `Verified`, `patRequests`, `pmtRequests`, `GatedEv`: with the CRC check compiled in,
   every `construct` event a PAT / PMT handler appends to the trace is one of the requests computed
-  from a delivered section that passed the gate; lifted through `specStep`, `pushSpec`, `push`,
-  `pushAll` exactly like `TagInv` in `Ts.Lemmas.Proj`.
+  from a delivered section that passed the gate; lifted through `specStep` and `pushSpec`
+  (`StepEv`, `pushSpec_gated`: the delivery is kept).  `VerifiedReq`, `push_gated`, `pushAll_gated`
+  are the weak forms that forget the delivery (see the warning at `VerifiedReq`); the lift to whole
+  runs that keeps it is in `Ts.Lemmas.C04c`.
 
 Nothing here uses any fact about the checksum function: `Verified S` literally says
 `Crc.sum32 S = .ok 0`.  `Ts.Props.C04` turns that into the Annex A bit-serial CRC.
@@ -585,7 +587,14 @@ theorem specStep_gated (t : Tab Handler) (c : Ctx) (pk : Pk) (t' : Tab Handler) 
         exact Or.inr ⟨hn, hg.symm⟩
 
 /-- an event that, if it is a handler request, is a `ByPid` request or one of the requests
-computed from a section satisfying `Verified` -/
+computed from SOME byte string satisfying `Verified`.
+WEAK: `S` is existentially quantified and not tied to any delivery of any reassembler, and the
+processors do not read the CRC bytes, so any request computable from a string of ≥ 12 bytes with
+the syntax bit set is also computable from a `Verified` one (`Ts.Props.C04.reseal`).  `VerifiedReq`,
+`push_gated` and `pushAll_gated` therefore do not by themselves express that the CRC gate works;
+the statements that do are `StepEv` / `GatedEv` (the section is a delivery `d ∈ ds` of the serving
+handler's reassembler on that very packet): `pushSpec_gated`, and for whole runs
+`Ts.Lemmas.C04c.runApp_history`, `Ts.Props.C04.requests_from_verified_delivery`. -/
 def VerifiedReq (e : Ev) : Prop :=
   ∀ req tag, e = Ev.construct req tag → (∃ p, req = Req.byPid p) ∨
     ∃ S, Verified S ∧ (req ∈ patRequests S ∨ ∃ pid, req ∈ pmtRequests pid S)
